@@ -129,6 +129,29 @@ def updateRunning (w : Worker) (alive : List Uuid) (now : Nat) : Worker × List 
 
 end Worker
 
+/-! ### `probeRunning`: reading the answer of `crunch-run --list` -/
+
+/-- One line of the `crunch-run --list` output as `probeRunning` classifies it. -/
+inductive ProbeLine where
+  | empty                  -- "" (after the final newline)
+  | broken                 -- "broken"
+  | uuid (u : Uuid)        -- a single token: a container with a live crunch-run
+  | stale (u : Uuid)       -- "<uuid> stale": crunch-run itself has exited
+  | other                  -- anything else with more than one token
+deriving DecidableEq, Repr, Inhabited
+
+/-- The loop of `probeRunning` over the lines, in any order: the containers reported running,
+whether "broken" was reported, whether a stale run lock was reported. No line ends the loop. -/
+def parseProbe : List ProbeLine → List Uuid × Bool × Bool
+  | [] => ([], false, false)
+  | l :: rest =>
+    let r := parseProbe rest
+    match l with
+    | .uuid u => (u :: r.1, r.2.1, r.2.2)
+    | .broken => (r.1, true, r.2.2)
+    | .stale _ => (r.1, r.2.1, true)
+    | _ => r
+
 /-- What one `probeAndUpdate` has collected when it takes the lock for the last time. -/
 structure Probe where
   stamp : Nat              -- `updated := wkr.updated` read when the probe began
@@ -308,6 +331,20 @@ def sync (p : Pool) (threshold : Nat) (listed : List Listed) (retry : Nat → Bo
     | some w => if existed && w.state == .shutdown && retry l.id then p.put (w.shutdown now) else p
     | none => p) p
   { p with workers := p.workers.filter (fun w => decide (w.updated > threshold)) }
+
+/-- Answer of the cloud's `Instances()` call as `getInstancesAndSync` sees it. -/
+inductive ListResult where
+  | ok (listed : List Listed)
+  | failed                  -- any error, a rate-limit error included
+deriving Repr, Inhabited
+
+/-- `getInstancesAndSync`: `threshold := time.Now()`, list the instances, and only if that
+succeeded `sync(threshold, instances)`; on any error (rate limiting included) the pool is left
+as it is. `th < now`. -/
+def getInstancesAndSync (p : Pool) (r : ListResult) (retry : Nat → Bool) (th now : Nat) : Pool :=
+  match r with
+  | .ok listed => p.sync th listed retry now
+  | .failed => p
 
 end Pool
 
